@@ -7,6 +7,12 @@
 //       gfilter|nfilter <flags> <hex> [j]    flags: bit0 strict, bit1 invert; j: joined argv form
 //       cmdline                              build the filters / run-ignored through the parser
 //       runignored | reverse | shuffle <seed> [scripted rand values...] | run
+//       undo                                 TestRegistry::unDoLastAddTest
+//       find name|group <hex> | count | prev <id|null>     findTestWithName/Group, countTests, getTestWithNext
+//       shellri <id> | willrun               shell->setRunIgnored() directly; willRun() of every shell
+//       list lg|ln|ll                        listTestGroupNames / listTestGroupAndCaseNames / listTestLocations
+//       runner rep=<N|0> seed=<S|-> rev=<0|1> list=<none|lg|ln|ll> [scripted rand values...]
+//                                            the real CommandLineTestRunner (repeat loop, -b, -s, list modes)
 #include "common.h"
 #include <deque>
 #include "CppUTest/TestHarness.h"
@@ -16,6 +22,7 @@
 #include "CppUTest/TestFilter.h"
 #include "CppUTest/TestPlugin.h"
 #include "CppUTest/CommandLineArguments.h"
+#include "CppUTest/CommandLineTestRunner.h"
 #include "CppUTest/PlatformSpecificFunctions.h"
 
 #undef new
@@ -27,6 +34,14 @@ std::string g_cb;                         // callback order of this run
 std::map<const UtestShell*, unsigned long> g_ids;
 
 size_t g_cbCount = 0, g_cbLimit = 0;          // a run away loop (cyclic list) is cut off and reported
+std::string g_text;                       // text printed since the last callback
+std::vector<std::string> g_repLines;      // per repetition: counters and execution counters (runner op)
+bool g_perRep = false;
+
+void flush_text() {
+    if (g_text.empty()) return;
+    g_cb += " T"; g_cb += vh::hex(g_text); g_text.clear();
+}
 
 void runaway() {
     vh::emit("cb%s", g_cb.c_str());
@@ -34,8 +49,9 @@ void runaway() {
     fflush(stdout);
     _exit(0);
 }
-void cb(const char* tag) { g_cb += " "; g_cb += tag; if (++g_cbCount > g_cbLimit) runaway(); }
+void cb(const char* tag) { flush_text(); g_cb += " "; g_cb += tag; if (++g_cbCount > g_cbLimit) runaway(); }
 void cb(const char* tag, unsigned long id) {
+    flush_text();
     char b[40]; snprintf(b, sizeof b, " %s%lu", tag, id); g_cb += b;
     if (++g_cbCount > g_cbLimit) runaway();
 }
@@ -45,14 +61,37 @@ unsigned long idOf(const UtestShell& t) {
     return it == g_ids.end() ? 999999999UL : it->second;
 }
 
+std::string counts_of(const TestResult& r) {
+    char b[160];
+    snprintf(b, sizeof b, "counts %lu %lu %lu %lu", (unsigned long) r.getTestCount(), (unsigned long) r.getRunCount(),
+             (unsigned long) r.getIgnoredCount(), (unsigned long) r.getFilteredOutCount());
+    return b;
+}
+std::string execs_line() {
+    std::string e = "execs";
+    for (size_t j = 0; j < g_exec.size(); j++) { char b[32]; snprintf(b, sizeof b, " %lu", g_exec[j]); e += b; }
+    return e;
+}
+
 struct RecordingOutput : public TestOutput {
-    void printTestsStarted() CPPUTEST_OVERRIDE { cb("S"); }
-    void printTestsEnded(const TestResult&) CPPUTEST_OVERRIDE { cb("E"); }
+    void printTestsStarted() CPPUTEST_OVERRIDE {
+        if (g_perRep) g_exec.assign(g_exec.size(), 0);
+        cb("S");
+    }
+    void printTestsEnded(const TestResult& r) CPPUTEST_OVERRIDE {
+        cb("E");
+        if (g_perRep) {
+            char b[32]; snprintf(b, sizeof b, "rep %lu ", (unsigned long) (g_repLines.size() / 2 + 1));
+            g_repLines.push_back(std::string(b) + counts_of(r));
+            g_repLines.push_back(std::string(b) + execs_line());
+            if (r.getFailureCount()) g_repLines.push_back("failures");
+        }
+    }
     void printCurrentTestStarted(const UtestShell& t) CPPUTEST_OVERRIDE { cb("ts", idOf(t)); }
     void printCurrentTestEnded(const TestResult&) CPPUTEST_OVERRIDE { cb("te"); }
     void printCurrentGroupStarted(const UtestShell& t) CPPUTEST_OVERRIDE { cb("gs", idOf(t)); }
     void printCurrentGroupEnded(const TestResult&) CPPUTEST_OVERRIDE { cb("ge"); }
-    void printBuffer(const char*) CPPUTEST_OVERRIDE {}
+    void printBuffer(const char* t) CPPUTEST_OVERRIDE { g_text += t; }
     void flush() CPPUTEST_OVERRIDE {}
 };
 
@@ -109,6 +148,64 @@ bool acyclic(TestRegistry& reg, size_t n) {
 
 void free_filters(TestFilter* f) { while (f) { TestFilter* n = f->getNext(); delete f; f = n; } }
 
+struct RecRunner : public CommandLineTestRunner {
+    RecRunner(int ac, const char* const* av, TestRegistry* r) : CommandLineTestRunner(ac, av, r) {}
+    TestOutput* createConsoleOutput() CPPUTEST_OVERRIDE { return new RecordingOutput; }
+    TestOutput* createJUnitOutput(const SimpleString&) CPPUTEST_OVERRIDE { return new RecordingOutput; }
+    TestOutput* createTeamCityOutput() CPPUTEST_OVERRIDE { return new RecordingOutput; }
+};
+
+void filter_argv(const std::vector<FilterSpec>& filters, bool runIgnored, std::vector<std::string>& argvStore) {
+    static const char* gflag[4] = { "-g", "-sg", "-xg", "-xsg" };
+    static const char* nflag[4] = { "-n", "-sn", "-xn", "-xsn" };
+    argvStore.push_back("h_c02");
+    for (size_t j = 0; j < filters.size(); j++) {
+        const char* fl = filters[j].group ? gflag[filters[j].flags] : nflag[filters[j].flags];
+        if (filters[j].joined) argvStore.push_back(std::string(fl) + filters[j].text);
+        else { argvStore.push_back(fl); argvStore.push_back(filters[j].text); }
+    }
+    if (runIgnored) argvStore.push_back("-ri");
+}
+
+// the registry's filter lists for a direct run / list: real TestFilter objects, or the parser's
+struct FilterSet {
+    TestFilter* gf; TestFilter* nf; CommandLineArguments* args;
+    std::vector<std::string> argvStore; std::vector<const char*> argv;
+    FilterSet() : gf(0), nf(0), args(0) {}
+    void install(TestRegistry& reg, const std::vector<FilterSpec>& filters, bool viaCmdline, bool runIgnoredWanted) {
+        if (viaCmdline) {
+            filter_argv(filters, runIgnoredWanted, argvStore);
+            for (size_t j = 0; j < argvStore.size(); j++) argv.push_back(argvStore[j].c_str());
+            args = new CommandLineArguments((int) argv.size(), &argv[0]);
+            if (!args->parse(NullTestPlugin::instance())) vh::emit("parse-failed");
+            reg.setGroupFilters(args->getGroupFilters());
+            reg.setNameFilters(args->getNameFilters());
+            if (args->isRunIgnored()) reg.setRunIgnored();
+        }
+        else {
+            for (size_t j = 0; j < filters.size(); j++) {
+                TestFilter* f = new TestFilter(filters[j].text.c_str());
+                if (filters[j].flags & 1u) f->strictMatching();
+                if (filters[j].flags & 2u) f->invertMatching();
+                if (filters[j].group) gf = f->add(gf); else nf = f->add(nf);
+            }
+            reg.setGroupFilters(gf);
+            reg.setNameFilters(nf);
+        }
+    }
+    void remove(TestRegistry& reg) {
+        reg.setGroupFilters(0); reg.setNameFilters(0);
+        free_filters(gf); free_filters(nf); gf = nf = 0;
+        delete args; args = 0;
+    }
+};
+
+std::string field(const vh::Words& w, const char* key, const char* dflt) {
+    std::string k = std::string(key) + "=";
+    for (size_t i = 1; i < w.size(); i++) if (w[i].compare(0, k.size(), k) == 0) return w[i].substr(k.size());
+    return dflt;
+}
+
 void run_case(const vh::Case& c) {
     PlatformSpecificRand = rec_rand;
     PlatformSpecificSrand = rec_srand;
@@ -162,53 +259,119 @@ void run_case(const vh::Case& c) {
         else if (w[0] == "run") {
             vh::emit_op("run");
             if (!acyclic(reg, shells.size())) { vh::emit("list-cycle"); continue; }
-            TestFilter* gf = 0; TestFilter* nf = 0;
-            CommandLineArguments* args = 0;
-            std::vector<std::string> argvStore; std::vector<const char*> argv;
-            if (viaCmdline) {
-                static const char* gflag[4] = { "-g", "-sg", "-xg", "-xsg" };
-                static const char* nflag[4] = { "-n", "-sn", "-xn", "-xsn" };
-                argvStore.push_back("h_c02");
-                for (size_t j = 0; j < filters.size(); j++) {
-                    const char* fl = filters[j].group ? gflag[filters[j].flags] : nflag[filters[j].flags];
-                    if (filters[j].joined) argvStore.push_back(std::string(fl) + filters[j].text);
-                    else { argvStore.push_back(fl); argvStore.push_back(filters[j].text); }
-                }
-                if (runIgnoredWanted) argvStore.push_back("-ri");
-                for (size_t j = 0; j < argvStore.size(); j++) argv.push_back(argvStore[j].c_str());
-                args = new CommandLineArguments((int) argv.size(), &argv[0]);
-                if (!args->parse(NullTestPlugin::instance())) vh::emit("parse-failed");
-                reg.setGroupFilters(args->getGroupFilters());
-                reg.setNameFilters(args->getNameFilters());
-                if (args->isRunIgnored()) reg.setRunIgnored();
-            }
-            else {
-                for (size_t j = 0; j < filters.size(); j++) {
-                    TestFilter* f = new TestFilter(filters[j].text.c_str());
-                    if (filters[j].flags & 1u) f->strictMatching();
-                    if (filters[j].flags & 2u) f->invertMatching();
-                    if (filters[j].group) gf = f->add(gf); else nf = f->add(nf);
-                }
-                reg.setGroupFilters(gf);
-                reg.setNameFilters(nf);
-            }
+            FilterSet fs; fs.install(reg, filters, viaCmdline, runIgnoredWanted);
             g_exec.assign(shells.size(), 0);
-            g_cb.clear();
+            g_cb.clear(); g_text.clear();
             g_cbCount = 0; g_cbLimit = 8 * shells.size() + 16;
             {
                 TestResult result(out);
                 reg.runAllTests(result);
+                flush_text();
                 vh::emit("cb%s", g_cb.c_str());
-                vh::emit("counts %lu %lu %lu %lu", (unsigned long) result.getTestCount(), (unsigned long) result.getRunCount(),
-                         (unsigned long) result.getIgnoredCount(), (unsigned long) result.getFilteredOutCount());
+                vh::emit("%s", counts_of(result).c_str());
                 if (result.getFailureCount()) vh::emit("failures %lu", (unsigned long) result.getFailureCount());
             }
-            std::string e = "execs";
-            for (size_t j = 0; j < g_exec.size(); j++) { char b[32]; snprintf(b, sizeof b, " %lu", g_exec[j]); e += b; }
-            vh::emit("%s", e.c_str());
+            vh::emit("%s", execs_line().c_str());
+            fs.remove(reg);
+        }
+        else if (w[0] == "undo") {
+            vh::emit_op("undo");
+            if (!emit_order("from", reg, shells.size())) continue;
+            reg.unDoLastAddTest();
+            emit_order("order", reg, shells.size());
+        }
+        else if (w[0] == "find" && w.size() >= 3 && (w[1] == "name" || w[1] == "group")) {
+            std::string text = vh::unhex(w[2]);
+            vh::emit("> find %s %s", w[1].c_str(), vh::hex(text).c_str());
+            if (!emit_order("order", reg, shells.size())) continue;
+            UtestShell* t = w[1] == "name" ? reg.findTestWithName(text.c_str()) : reg.findTestWithGroup(text.c_str());
+            if (t) vh::emit("found %lu", idOf(*t)); else vh::emit("found none");
+        }
+        else if (w[0] == "count") {
+            vh::emit_op("count");
+            if (!emit_order("order", reg, shells.size())) continue;
+            vh::emit("count %lu", (unsigned long) reg.countTests());
+        }
+        else if (w[0] == "prev" && w.size() >= 2 && (w[1] == "null" || vh::to_u64(w[1]) < shells.size())) {
+            vh::emit("> prev %s", w[1].c_str());
+            if (!emit_order("order", reg, shells.size())) continue;
+            UtestShell* arg = w[1] == "null" ? 0 : shells[(size_t) vh::to_u64(w[1])];
+            UtestShell* t = reg.getTestWithNext(arg);
+            if (t) vh::emit("found %lu", idOf(*t)); else vh::emit("found none");
+        }
+        else if (w[0] == "shellri" && w.size() >= 2 && vh::to_u64(w[1]) < shells.size()) {
+            vh::emit("> shellri %s", w[1].c_str());
+            shells[(size_t) vh::to_u64(w[1])]->setRunIgnored();
+        }
+        else if (w[0] == "willrun") {
+            vh::emit_op("willrun");
+            std::string l = "willrun";
+            for (size_t j = 0; j < shells.size(); j++) l += shells[j]->willRun() ? " 1" : " 0";
+            vh::emit("%s", l.c_str());
+        }
+        else if (w[0] == "list" && w.size() >= 2 && (w[1] == "lg" || w[1] == "ln" || w[1] == "ll")) {
+            vh::emit("> list %s", w[1].c_str());
+            if (!emit_order("order", reg, shells.size())) continue;
+            FilterSet fs; fs.install(reg, filters, viaCmdline, runIgnoredWanted);
+            g_exec.assign(shells.size(), 0);
+            g_cb.clear(); g_text.clear();
+            g_cbCount = 0; g_cbLimit = 8 * shells.size() + 16;
+            {
+                TestResult result(out);
+                if (w[1] == "lg") reg.listTestGroupNames(result);
+                else if (w[1] == "ln") reg.listTestGroupAndCaseNames(result);
+                else reg.listTestLocations(result);
+                std::string text = g_text; g_text.clear();
+                if (!g_cb.empty()) vh::emit("cb%s", g_cb.c_str());
+                vh::emit("text %s", vh::hex(text).c_str());
+                vh::emit("%s", counts_of(result).c_str());
+            }
+            vh::emit("%s", execs_line().c_str());
+            fs.remove(reg);
+        }
+        else if (w[0] == "runner") {
+            std::string rep = field(w, "rep", "0"), seed = field(w, "seed", "-"), rev = field(w, "rev", "0"), lst = field(w, "list", "none");
+            if (lst != "lg" && lst != "ln" && lst != "ll") lst = "none";
+            unsigned long nrep = (unsigned long) vh::to_u64(rep); if (nrep > 5) nrep = 5;
+            unsigned long nseed = seed == "-" ? 0 : (unsigned long) (vh::to_u64(seed) & 0xffffffffUL);
+            bool shuffling = seed != "-" && nseed != 0;
+            std::string op = "> runner rep=" + std::to_string(nrep) + " seed=" + (shuffling ? std::to_string(nseed) : std::string("-")) +
+                             " rev=" + (rev == "1" ? "1" : "0") + " list=" + lst;
+            g_scripted.clear();
+            for (size_t j = 1; j < w.size(); j++) if (w[j].find('=') == std::string::npos) { g_scripted.push_back(vh::to_i64(w[j])); op += " " + w[j]; }
+            vh::emit("%s", op.c_str());
+            if (!emit_order("from", reg, shells.size())) { g_scripted.clear(); continue; }
+            std::vector<std::string> argvStore; std::vector<const char*> argv;
+            filter_argv(filters, runIgnoredWanted, argvStore);
+            if (nrep) argvStore.push_back("-r" + std::to_string(nrep));
+            if (shuffling) argvStore.push_back("-s" + std::to_string(nseed));
+            if (rev == "1") argvStore.push_back("-b");
+            if (lst != "none") argvStore.push_back("-" + lst);
+            for (size_t j = 0; j < argvStore.size(); j++) argv.push_back(argvStore[j].c_str());
+            g_exec.assign(shells.size(), 0);
+            g_cb.clear(); g_text.clear(); g_repLines.clear();
+            g_rands.clear(); g_srands.clear();
+            g_cbCount = 0; g_cbLimit = (8 * shells.size() + 16) * (nrep ? nrep : 1) + 16;
+            g_perRep = true;
+            int ret;
+            {
+                RecRunner runner((int) argv.size(), &argv[0], &reg);
+                ret = runner.runAllTestsMain();
+            }
+            g_perRep = false;
+            flush_text();
             reg.setGroupFilters(0); reg.setNameFilters(0);
-            free_filters(gf); free_filters(nf);
-            delete args;
+            vh::emit("ret %d", ret);
+            std::string sr = "srands";
+            for (size_t j = 0; j < g_srands.size(); j++) { char b[32]; snprintf(b, sizeof b, " %u", g_srands[j]); sr += b; }
+            vh::emit("%s", sr.c_str());
+            std::string r = "rands";
+            for (size_t j = 0; j < g_rands.size(); j++) { char b[32]; snprintf(b, sizeof b, " %llu", g_rands[j]); r += b; }
+            vh::emit("%s", r.c_str());
+            vh::emit("stream%s", g_cb.c_str());
+            for (size_t j = 0; j < g_repLines.size(); j++) vh::emit("%s", g_repLines[j].c_str());
+            emit_order("order", reg, shells.size());
+            g_scripted.clear();
         }
         else vh::emit("> skip");
     }
